@@ -46,6 +46,73 @@ def h_outputs(ctx, case):
     return 'ok'
 
 
+def h_hdf5_round_trip(ctx, case):
+    """blob_to_hdf5 / hdf5_to_blob on a flat taxonomy wide enough for the
+    node indexes to cross the limits of the narrow integer types: the
+    solver picks the node of the assignment and of each runner-up from the
+    boundary indexes; the file must read back as it was written"""
+    import os
+    import cell_type_mapper.utils.output_utils as OU
+    n = case['nodes']
+    edge = [v for v in (0, 127, 128, 255, 256, 32767, 32768, 65535, 65536)
+            if v < n - 1] + [n - 1]
+    nodes = [f'n{i:05d}' for i in range(n)]
+    tree = {'hierarchy': ['cluster'], 'cluster': {k: [] for k in nodes}}
+    nru = 2
+    results = []
+    for ic in range(2):
+        p0 = edge[ctx.choice(f'cell{ic}.assignment', len(edge))]
+        # the first cell has 0-2 runners-up from the boundary indexes,
+        # the second one none
+        k = ctx.choice(f'cell{ic}.n_runners_up', nru + 1) if ic == 0 else 0
+        ru = []
+        for j in range(k):
+            r = edge[ctx.choice(f'cell{ic}.runner_up{j}', len(edge))]
+            if r == p0 or r in ru:
+                raise core.PathAbort('a runner-up is another node')
+            ru.append(r)
+        results.append({'cell_id': f'c{ic}', 'cluster': {
+            'assignment': nodes[p0],
+            'bootstrapping_probability': 0.5,
+            'aggregate_probability': 0.5,
+            'avg_correlation': 0.25,
+            'directly_assigned': True,
+            'runner_up_assignment': [nodes[r] for r in ru],
+            'runner_up_probability': [0.25 / (1 + j) for j in range(k)],
+            'runner_up_correlation': [0.125 / (1 + j) for j in range(k)]}})
+    blob = {'results': results, 'taxonomy_tree': tree,
+            'config': {'type_assignment': {'n_runners_up': nru}},
+            'marker_genes': {'None': ['g0', 'g1']}}
+    work = ST.new_work()
+    path = os.path.join(work['out'], 'blob.h5')
+    try:
+        OU.blob_to_hdf5(output_blob=blob, dst_path=path)
+        back = OU.hdf5_to_blob(src_path=path)
+    except Exception as e:
+        ctx.exception(e)
+        ST.drop_work(work)
+        return 'EXC ' + type(e).__name__
+    ST.drop_work(work)
+    ctx.reach('read back')
+    ctx.check(len(back.get('results', [])) == len(results),
+              'HDF5 round trip keeps one record per cell')
+    for want, got in zip(results, back.get('results', [])):
+        ctx.check(got.get('cell_id') == want['cell_id'],
+                  'HDF5 round trip keeps the cell ids in order')
+        for key, w in want['cluster'].items():
+            g = got.get('cluster', {}).get(key)
+            if isinstance(w, list):
+                ok = g is not None and list(g) == w
+            else:
+                ok = g == w
+            ctx.check(ok, f'HDF5 round trip keeps {key} '
+                          '(node indexes at the limits of int8/uint8/int16)')
+    for key in ('taxonomy_tree', 'config', 'marker_genes'):
+        ctx.check(back.get(key) == blob[key],
+                  f'HDF5 round trip keeps {key}')
+    return 'ok'
+
+
 HARNESSES = [
     Harness('outputs_agree', h_outputs, setup=SC.setup,
             cases=[{'names': True}, {'names': False},
@@ -72,4 +139,17 @@ HARNESSES = [
             outside='data values are fixed (this is I/O-driven code); the '
                     'argschema CLI layer',
             expect_reach=['mapped'], selftest=0, split=16),
+    Harness('hdf5_round_trip_wide_level', h_hdf5_round_trip, setup=SC.setup,
+            cases=[{'nodes': 300}],
+            thorough_cases=[{'nodes': 70000}],
+            funcs=['output_utils.blob_to_hdf5', '_blob_to_hdf5_results',
+                   'hdf5_to_blob'],
+            bounds='flat taxonomy of 300 (thorough: 70000) nodes, 2 cells, '
+                   '0-2 runners-up for the first cell; the solver enumerates the node of '
+                   'every assignment and runner-up over the boundary indexes '
+                   '0, 127, 128, 255, 256, (32767, 32768, 65535, 65536,) '
+                   'n-1; probabilities / correlations are fixed dyadic '
+                   'values',
+            outside='indexes between the boundaries; more than one level',
+            expect_reach=['read back'], selftest=0, split=16),
 ]
